@@ -365,6 +365,13 @@ func (rw *rewriter) file(f *ast.File) bool {
 					rw.st.Ticker++
 					mark()
 				}
+			} else if p == "math/rand" {
+				// the process-global generator is seeded at random: its draws come from the decision stream instead
+				switch name {
+				case "Intn", "Int63n", "Int31n", "Float64":
+					n.Fun = sel("Rand" + name)
+					mark()
+				}
 			}
 		case *ast.UnaryExpr:
 			if n.Op == token.ARROW && !rw.comm[n] {
@@ -456,7 +463,7 @@ func (rw *rewriter) file(f *ast.File) bool {
 	}
 	if changed {
 		astutil.AddNamedImport(rw.fset, f, "simrt", "verif.local/simrt")
-		for _, imp := range []string{"time", "sync"} {
+		for _, imp := range []string{"time", "sync", "math/rand"} {
 			if !astutil.UsesImport(f, imp) {
 				astutil.DeleteImport(rw.fset, f, imp)
 			}
